@@ -85,8 +85,12 @@ func (o *c05wObs) After(w *wWorld, st *wStep) *kit.Viol {
 		self := w.users[u].uid
 		for _, f := range st.Frames[sess] {
 			p := f.Pres
-			if p == nil || p.What != "acs" || p.Acs == nil {
+			if p == nil || p.What != "acs" {
 				continue
+			}
+			if p.Acs == nil {
+				// a permission-change notice which carries no difference: the recipient changes nothing
+				p = &MsgServerPres{Topic: p.Topic, Src: p.Src, What: p.What, AcsTarget: p.AcsTarget, AcsActor: p.AcsActor, Acs: &MsgAccessMode{}}
 			}
 			var route string
 			target := self
